@@ -200,4 +200,9 @@ func runC09(p *core.Prog, r *core.Report) {
 			r.Fatalf("C09.R7: resyncHandler.handle has no ordinary return")
 		}
 	}
+	// ---------------- R8 a mark without an index record still brings GC to the blob (shared with C44.R8)
+	r8 := r.Rule("C09.R8", "GC is given every garbage mark, also one with nothing indexed under its id: a resync that meets a tombstone before its target leaves the target with a blob and a mark but no index record, and only GC acting on that mark removes the blob — a blob that stays is indexed as an ordinary object by the next resync once the tombstone has expired", 1)
+	listerListsEveryMark(p, r, r8)
+	r.Explain += " (R8, shared with C44.R8) the garbage lister skips no mark."
+
 }
